@@ -493,6 +493,25 @@ def fastReadWith (skip : Nat → Bytes → FRes Nat) (P : Prog) (sidx : Nat) (bs
   let (v, r) ← fastReadTyWith skip P (bs.length + 1) (.struct sidx) bs
   .ok (v, bs.length - r.length)
 
+/-- generated `FastRead` into an object the caller already holds (`cur`, e.g. a recycled object or one another message
+was read into): the loop starts from its fields instead of `NewX()`'s; nested struct-likes are still built by `NewT()`,
+containers by `make`. `fastReadWith … = fastReadIntoWith … (newX sd)`. -/
+def fastReadIntoWith (skip : Nat → Bytes → FRes Nat) (P : Prog) (sidx : Nat) (cur : GoVal) (bs : Bytes) : FRes (GoVal × Nat) :=
+  match P.struct? sidx, cur with
+  | some sd, .strct fs => do
+      let (fs', r) ← fastFieldsWith skip P (fastReadTyWith skip P bs.length) sd.fields (bs.length + 1) bs fs
+        (sd.fields.map fun _ => false)
+      .ok (.strct fs', bs.length - r.length)
+  | _, _ => .err
+
+/-- the standard generated `Read` (Gen.Std) into an object the caller already holds -/
+def stdReadInto (P : Prog) (sidx : Nat) (cur : GoVal) (bs : Bytes) : Option GoVal :=
+  match P.struct? sidx, cur with
+  | some sd, .strct fs =>
+      (Std.readFieldsWith (Std.readTy P.structs bs.length) sd.fields (bs.length + 1) bs fs (sd.fields.map fun _ => false)).map
+        fun (fs', _) => .strct fs'
+  | _, _ => none
+
 /-- the skip path of the `default:` branch as the code writer emits it: optionally `if ftyp < 0 {error}` before the
 call, optionally the call wrapped in a function literal whose deferred `recover()` turns a panic into an error,
 optionally `if off > len(b) {error}` after `off += l`; with no guard it is gopkg's Skip itself -/
@@ -510,6 +529,9 @@ def fastReadG (negGuard recov lenGuard : Bool) (P : Prog) (sidx : Nat) (bs : Byt
 /-- the skip path of the current generator -/
 def curSkip : Nat → Bytes → FRes Nat :=
   guardedSkip Generated.C10.guardNegativeType Generated.C10.guardRecover Generated.C10.guardSkipLength
+
+/-- FastRead of the current generator into an object the caller holds -/
+def fastReadInto (P : Prog) (sidx : Nat) (cur : GoVal) (bs : Bytes) : FRes (GoVal × Nat) := fastReadIntoWith curSkip P sidx cur bs
 
 /-- FastRead of the current generator -/
 def fastRead (P : Prog) (sidx : Nat) (bs : Bytes) : FRes (GoVal × Nat) := fastReadWith curSkip P sidx bs
